@@ -16,8 +16,9 @@ def run(report, tier):
     h = Harness(name="descriptor", module="harness.c13", body="body_descr", sig="sel: int", n_sel=H.N_DESCR, concrete_body=True,
                 claim="to_string() read back by bracket matching gives exactly the mother, the nesting and the daughter multiset at every "
                       "level; three constructions differing in daughter order and mapping order give one string; with user patterns the "
-                      "first renders the top level and the second every nested level; after an in-place edit of the top-level final state "
-                      "(pop / clear+update / setdefault / popitem on the public Counter) the descriptor shows the edited tree",
+                      "first renders the top level and the second every nested level; after an in-place edit of the final state of any decaying "
+                      "particle, top-level or nested (pop / clear+update / setdefault / popitem on the public Counter; every particle x every "
+                      "edit, each on a fresh chain) the descriptor shows the edited tree",
                 bounds=f"{len(H.STRUCTS)} chain structures (all DAG shapes up to 4 decaying particles incl. repeated decaying daughters with "
                        f"multiplicity 2, all trees with 5) x {len(H.POOLS)} name pools (parentheses, quotes, signs in names) x "
                        f"{len(H.PATTERNS)} pattern pairs (default, square brackets, bracket after the mother, escaped literal braces, daughters first)",
